@@ -100,8 +100,17 @@ class Placement:
             self.prop_cb[(cls, p)] = (f"prop:{cls}.{p}", rw)
             return func_adl_parameterized_call(make_cb(f"prop:{cls}.{p}", "prop", rw, parameterized=True))
 
+        @cls_deco("Particle")
+        class Particle:
+            @m_deco("Particle", "mass")
+            def mass(self, tag: int = 0) -> float: ...
+            @m_deco("Particle", "phi")
+            def phi(self, tag: int = 0) -> float: ...
+            def mass_rw(self, tag: int = 0, extra: int = 0) -> float: ...
+            def phi_rw(self, tag: int = 0, extra: int = 0) -> float: ...
+
         @cls_deco("Trk")
-        class Trk:
+        class Trk(Particle):
             @m_deco("Trk", "pt")
             def pt(self, tag: int = 0) -> float: ...
             @m_deco("Trk", "q")
@@ -110,7 +119,7 @@ class Placement:
             def q_rw(self, tag: int = 0, extra: int = 0) -> int: ...
 
         @cls_deco("Jet")
-        class Jet:
+        class Jet(Particle):
             @m_deco("Jet", "pt")
             def pt(self, tag: int = 0) -> float: ...
             @m_deco("Jet", "eta")
@@ -146,7 +155,8 @@ class Placement:
 
         f.__name__ = self.fname
         func_adl_callable(make_cb(f"func:{self.fname}", "func", rw) if has_proc else None)(f)
-        self.METHODS = {"Event": ["met"], "Jet": ["pt", "eta"], "Trk": ["pt", "q"]}
+        self.METHODS = {"Event": ["met"], "Jet": ["pt", "eta", "mass", "phi"], "Trk": ["pt", "q", "mass", "phi"]}
+        self.DEFINED_ON = {("Jet", "mass"): "Particle", ("Jet", "phi"): "Particle", ("Trk", "mass"): "Particle", ("Trk", "phi"): "Particle"}
         self.COLLS = {"Event": [("jets", "Jet"), ("trks", "Trk")], "Jet": [("trks", "Trk")], "Trk": []}
         self.PROPS = {"Event": ["info"], "Jet": ["getAttr"], "Trk": []}
 
@@ -167,15 +177,23 @@ class SiteGen:
         self.m = itertools.count(1000 + rnd.randint(0, 50) * 10)
         self.sites = {}  # marker -> dict(kind, cls, name, depth, expected cbs [(cbid, kind, rewrite)], params)
         self.k = 0
+        self.inherited = False
 
     def site(self, cls, name, depth, kind="method", params=None):
         mk = next(self.m)
         cbs = []
         if kind == "method":
+            # class-level: the callback registered on the class of the OBJECT (a subclass without its own callback
+            # inherits its base's); method-level: the callback on the method, wherever it is defined
+            defined_on = self.pl.DEFINED_ON.get((cls, name), cls)
             if cls in self.pl.cls_cb:
                 cbs.append(self.pl.cls_cb[cls] + ("class",))
-            if (cls, name) in self.pl.meth_cb:
-                cbs.append(self.pl.meth_cb[(cls, name)] + ("method",))
+            elif cls in ("Jet", "Trk") and "Particle" in self.pl.cls_cb:
+                cbs.append(self.pl.cls_cb["Particle"] + ("class",))
+            if (defined_on, name) in self.pl.meth_cb:
+                cbs.append(self.pl.meth_cb[(defined_on, name)] + ("method",))
+            if defined_on != cls:
+                self.inherited = True
         elif kind == "func":
             if name in self.pl.func_cb:
                 cbs.append(self.pl.func_cb[name] + ("func",))
@@ -262,6 +280,8 @@ def run_case(ctx, rnd, pl, ds):
     key = f"{sorted(pl.cls_cb)}{sorted(pl.meth_cb)}{sorted(pl.func_cb)}|{op}|{text}"
     bearing = [m for m, s in g.sites.items() if s["cbs"]]
     nt = any(g.sites[m]["depth"] >= 1 for m in bearing) or len(bearing) >= 2
+    if g.inherited:
+        ctx.count("cases-with-inherited-method-site")
     witness = {"op": op, "lambda": text, "class_cb": {k: v_[1] for k, v_ in pl.cls_cb.items()}, "method_cb": {f"{k[0]}.{k[1]}": v_[1] for k, v_ in pl.meth_cb.items()},
                "func_cb": {k: v_[1] for k, v_ in pl.func_cb.items()}, "prop_cb": {f"{k[0]}.{k[1]}": v_[1] for k, v_ in pl.prop_cb.items()}}
     del LOG[:]
